@@ -2,6 +2,8 @@
 from lib import hexs
 
 MODULE = "DtailModel.Props.C05"
+# translated packages (tie G) this property's theorems rest on
+GEN_UNITS = ("Mapr",)
 GROUPS = ["C05", "C11", "GEN", "C15"]
 LOGGER = "none"
 BUDGET = {"quick": 1500, "thorough": 40000}
